@@ -83,4 +83,10 @@ contains
        write(*,'(I0)',advance='no') transfer(a(i), 0_C_INT64_T)
     end do
   end subroutine vfo_ar8
+  ! callback handed to libraries that take  int (*fn)(int)
+  function vf_cb3(i) bind(C) result(r)
+    integer(C_INT), value :: i
+    integer(C_INT) :: r
+    r = 3*i + 1
+  end function vf_cb3
 end module vf_out
